@@ -1,7 +1,7 @@
 From Coq Require Import Extraction ExtrOcamlBasic.
 From OC Require Import Base.Bytes Model.Merge Model.CfgStore Model.Wildcard Spec.Gnmi.
-Extraction "model.ml" is_path_below get_parent_path apply_change_to_config add_delete_children commit_merge apply_all
+Extraction "model.ml" is_path_below get_parent_path boundary_ancestors apply_change_to_config add_delete_children commit_merge apply_all
   validate_change candidate rollback_of prune_path_values prune_path_map compute_change with_index apply_values device_request
   store_write persist_commit cfg_update status_update commit_update apply_update set_cycle stale_update view_values view_applied live_entries
-  match_wildcard get_filter get_leaves get_leaves_proto
+  match_wildcard get_filter get_leaves
   gnmi_apply gnmi_history gnmi_get glookup qmatch sprefix eqb_spath qlit.
